@@ -8,8 +8,11 @@
 (* every requested file exists, remove the scratch directory.                 *)
 EXTENDS Naturals, Sequences, FiniteSets, TLC
 CONSTANTS CmdPool,     \* commands [named : BOOLEAN, rc : Nat, writes : SUBSET Files]
-          Files, Requested, MaxCmds, Deviations
+          Files, Requested, MaxCmds, Deviations,
+          Forms        \* how the optional fields of the JobInput are given: "full" | "nofiles_none" | "nofiles_empty" |
+                       \* "noenv_none" | "noenv_empty" | "noret_none" | "noret_empty"  (omitted / None vs explicitly empty)
 VARIABLES cmds,      \* the job's command list
+          form,      \* the form of the optional fields
           pc,        \* "choose" | "files" | "loop" | "collect" | "done"
           i,         \* next command
           executed,  \* indices executed
@@ -17,42 +20,44 @@ VARIABLES cmds,      \* the job's command list
           present,   \* files present in the scratch directory
           result,    \* the run's observable result
           last
-vars == <<cmds, pc, i, executed, fail, present, result, last>>
-sv == <<cmds, pc, i, executed, fail, present, result>>
+vars == <<cmds, form, pc, i, executed, fail, present, result, last>>
+sv == <<cmds, form, pc, i, executed, fail, present, result>>
+InFiles == IF form \in {"nofiles_none", "nofiles_empty"} THEN {} ELSE {"note.txt", "blob.bin"}
+Req == IF form \in {"noret_none", "noret_empty"} THEN {} ELSE Requested
 NoResult == [exit |-> 99]
 
-Init == cmds = <<>> /\ pc = "choose" /\ i = 1 /\ executed = <<>> /\ fail = 0 /\ present = {} /\ result = NoResult
+Init == cmds = <<>> /\ form = "full" /\ pc = "choose" /\ i = 1 /\ executed = <<>> /\ fail = 0 /\ present = {} /\ result = NoResult
         /\ last = [act |-> "init"]
 
-Choose(cs) == /\ pc = "choose" /\ cmds' = cs /\ pc' = "files"
-              /\ UNCHANGED <<i, executed, fail, present, result>> /\ last' = [act |-> "choose", cmds |-> cs]
-Materialise == /\ pc = "files" /\ pc' = "loop" /\ present' = {"note.txt", "blob.bin"}
-               /\ UNCHANGED <<cmds, i, executed, fail, result>> /\ last' = [act |-> "files"]
+Choose(cs, f) == /\ pc = "choose" /\ cmds' = cs /\ form' = f /\ pc' = "files"
+                 /\ UNCHANGED <<i, executed, fail, present, result>> /\ last' = [act |-> "choose", cmds |-> cs, form |-> f]
+Materialise == /\ pc = "files" /\ pc' = "loop" /\ present' = InFiles
+               /\ UNCHANGED <<cmds, form, i, executed, fail, result>> /\ last' = [act |-> "files"]
 Exec == /\ pc = "loop" /\ i <= Len(cmds)
         /\ executed' = Append(executed, i)
         /\ present' = present \cup cmds[i].writes
         /\ IF cmds[i].rc # 0 /\ "ContinueAfterFailure" \notin Deviations
              THEN fail' = i /\ pc' = "collect" /\ i' = i
              ELSE fail' = (IF cmds[i].rc # 0 /\ fail = 0 THEN i ELSE fail) /\ i' = i + 1 /\ pc' = pc
-        /\ UNCHANGED <<cmds, result>> /\ last' = [act |-> "exec", i |-> i]
+        /\ UNCHANGED <<cmds, form, result>> /\ last' = [act |-> "exec", i |-> i]
 LoopDone == /\ pc = "loop" /\ i > Len(cmds) /\ pc' = "collect"
-            /\ UNCHANGED <<cmds, i, executed, fail, present, result>> /\ last' = [act |-> "loopdone"]
+            /\ UNCHANGED <<cmds, form, i, executed, fail, present, result>> /\ last' = [act |-> "loopdone"]
 Ran == {executed[j] : j \in 1..Len(executed)}
 Collect ==
   /\ pc = "collect" /\ pc' = "done"
-  /\ LET got == Requested \cap present
-         complete == got = Requested
+  /\ LET got == Req \cap present
+         complete == got = Req
      IN result' = [executed |-> executed,
                    captured |-> {j \in Ran : cmds[j].named},
                    files    |-> got,
                    exit     |-> IF (fail = 0 \/ "ExitIgnoresFailure" \in Deviations)
                                    /\ (complete \/ "ExitIgnoresMissing" \in Deviations) THEN 0 ELSE 1,
                    residue  |-> "KeepScratch" \in Deviations,
-                   hash_ok  |-> TRUE, inputs_ok |-> TRUE, env_ok |-> TRUE]
-  /\ UNCHANGED <<cmds, i, executed, fail, present>> /\ last' = [act |-> "collect"]
+                   hash_ok  |-> TRUE, inputs_ok |-> TRUE, env_ok |-> TRUE]      \* whatever the form of the optional fields
+  /\ UNCHANGED <<cmds, form, i, executed, fail, present>> /\ last' = [act |-> "collect"]
 
 CmdLists == UNION {[1..n -> CmdPool] : n \in 1..MaxCmds}
-Next == (\E cs \in CmdLists : Choose(cs)) \/ Materialise \/ Exec \/ LoopDone \/ Collect
+Next == (\E cs \in CmdLists, f \in Forms : Choose(cs, f)) \/ Materialise \/ Exec \/ LoopDone \/ Collect
 Spec == Init /\ [][Next]_vars
 
 (* ----- clauses -------------------------------------------------------------- *)
@@ -61,7 +66,7 @@ FirstFail == IF \E j \in 1..Len(cmds) : cmds[j].rc # 0 THEN CHOOSE j \in 1..Len(
 ExecutedIsPrefixToFirstFailure ==
   Done => result.executed = [j \in 1..(IF FirstFail = 0 THEN Len(cmds) ELSE FirstFail) |-> j]
 CapturedExactlyNamedExecuted == Done => result.captured = {j \in 1..Len(result.executed) : cmds[j].named}
-ExitRule == Done => (result.exit = 0 <=> (FirstFail = 0 /\ Requested \subseteq result.files))
+ExitRule == Done => (result.exit = 0 <=> (FirstFail = 0 /\ Req \subseteq result.files))
 NoResidue == Done => ~result.residue
-FilesAreRequestedAndWritten == Done => result.files = {f \in Requested : \E j \in 1..Len(result.executed) : f \in cmds[j].writes}
+FilesAreRequestedAndWritten == Done => result.files = {f \in Req : \E j \in 1..Len(result.executed) : f \in cmds[j].writes}
 =============================================================================
